@@ -44,6 +44,10 @@ class BaseGotranODECodePrinter(StrPrinter):
             return f"Not(Eq({lhs}, {rhs}))"
         return f"{relop}({lhs}, {rhs})"
 
+    def _print_ceiling(self, expr):
+        # ceiling (e.g. from an imported Myokit model) is not part of the grammar
+        return f"-floor(-({self._print(expr.args[0])}))"
+
     def _print_Exp1(self, expr):
         # The symbol E is not part of the grammar
         return "exp(1)"
